@@ -25,6 +25,22 @@ class _TupleStrip(ast.NodeTransformer):
 
     def visit_Call(self, node):
         self.generic_visit(node)
+        # f(*((a,) + rest)) is f(a, *rest); f(*(A + B)) is f(*A, *B)
+        if any(isinstance(a, ast.Starred) and isinstance(a.value, (ast.BinOp, ast.Tuple))
+               for a in node.args):
+            def flat(e):
+                if isinstance(e, ast.BinOp) and isinstance(e.op, ast.Add):
+                    return flat(e.left) + flat(e.right)
+                if isinstance(e, ast.Tuple):      # (a list display may have grown)
+                    return list(e.elts)
+                return [ast.Starred(value=e, ctx=ast.Load())]
+            args = []
+            for a in node.args:
+                if isinstance(a, ast.Starred):
+                    args += flat(a.value)
+                else:
+                    args.append(a)
+            node.args = args
         if isinstance(node.func, ast.Name) and node.func.id == 'tuple' and \
                 len(node.args) == 1 and not node.keywords:
             a = node.args[0]
@@ -39,6 +55,23 @@ class _TupleStrip(ast.NodeTransformer):
                 isinstance(node.args[1].value, str) and node.args[1].value.isidentifier():
             return ast.Attribute(value=node.args[0], attr=node.args[1].value,
                                  ctx=ast.Load())
+        # list(map(F, X)) / tuple(map(F, X)) with a plain callable: the comprehension
+        if isinstance(node.func, ast.Name) and node.func.id in ('list', 'tuple') and \
+                len(node.args) == 1 and not node.keywords and \
+                isinstance(node.args[0], ast.Call) and \
+                isinstance(node.args[0].func, ast.Name) and node.args[0].func.id == 'map' \
+                and len(node.args[0].args) == 2 and not node.args[0].keywords and \
+                isinstance(node.args[0].args[0], (ast.Name, ast.Attribute)):
+            m = node.args[0]
+            comp = ast.ListComp(
+                elt=ast.Call(func=m.args[0], args=[ast.Name(id='_m', ctx=ast.Load())],
+                             keywords=[]),
+                generators=[ast.comprehension(target=ast.Name(id='_m', ctx=ast.Store()),
+                                              iter=m.args[1], ifs=[], is_async=0)])
+            if node.func.id == 'list':
+                return comp
+            node.args = [comp]
+            return node
         # a copy of a fresh list display has the same content: list([..]) -> [..]
         if isinstance(node.func, ast.Name) and node.func.id == 'list' and \
                 len(node.args) == 1 and not node.keywords and \
@@ -47,11 +80,130 @@ class _TupleStrip(ast.NodeTransformer):
         return node
 
 
+_COMPS = (ast.ListComp, ast.SetComp, ast.DictComp, ast.GeneratorExp)
+
+
 def nt(expr):
     """normalised text of a resolved expression"""
     if expr is None:
         return 'None'
-    return norm_src(_TupleStrip().visit(clone(expr)))
+    e = _TupleStrip().visit(clone(expr))
+    if any(isinstance(n, _COMPS) for n in ast.walk(e)):
+        from ..normalize import alpha
+        alpha(e)
+    return norm_src(e)
+
+
+def ntext(text):
+    """normal form of an expression given as source text"""
+    return nt(ast.parse(text, mode='eval').body)
+
+
+def _eval3(node, assign):
+    """Kleene value of a condition over known atoms ({canonical text: bool})"""
+    if isinstance(node, ast.BoolOp):
+        vals = [_eval3(v, assign) for v in node.values]
+        if isinstance(node.op, ast.And):
+            if any(v is False for v in vals):
+                return False
+            return None if any(v is None for v in vals) else True
+        if any(v is True for v in vals):
+            return True
+        return None if any(v is None for v in vals) else False
+    if isinstance(node, ast.UnaryOp) and isinstance(node.op, ast.Not):
+        v = _eval3(node.operand, assign)
+        return None if v is None else not v
+    c, pol = canon(node, True)
+    if c in assign:
+        return assign[c] if pol else not assign[c]
+    return None
+
+
+def consistent(ps, assign, upto=None):
+    """no fact of the path contradicts the assignment of the atoms"""
+    for k, (c, t, p) in enumerate(ps.order):
+        if upto is not None and p > upto:
+            break
+        try:
+            e = ast.parse(c, mode='eval').body
+        except SyntaxError:
+            continue
+        v = _eval3(e, assign)
+        if v is not None and v != t:
+            return False
+    return True
+
+
+def value_cases(e, facts=None):
+    """[(((canonical condition, truth), ...), value AST)]: the value of an
+    expression split on its top-level `and` / `or` / conditional expressions
+    (a and b: a if a is falsy, else b)"""
+    facts = facts or {}
+
+    def known(test):
+        c, pol = canon(test, True)
+        v = facts.get(c)
+        return c, pol, (None if v is None else (v if pol else not v))
+    if isinstance(e, ast.IfExp):
+        c, pol, v = known(e.test)
+        out = []
+        for truth, br in ((True, e.body), (False, e.orelse)):
+            if v is not None and v != truth:
+                continue
+            for conds, val in value_cases(br, facts):
+                out.append((((c, truth if pol else not truth),) + conds, val))
+        return out
+    if isinstance(e, ast.BoolOp):
+        stop_on = isinstance(e.op, ast.Or)        # `or` stops at the first truthy
+        out = []
+        prefix = ()
+        for k, v_ in enumerate(e.values):
+            last = k == len(e.values) - 1
+            c, pol, v = known(v_)
+            if last:
+                for conds, val in value_cases(v_, facts):
+                    out.append((prefix + conds, val))
+                break
+            if v is None or v == stop_on:
+                out.append((prefix + ((c, stop_on if pol else not stop_on),), v_))
+            if v is not None and v == stop_on:
+                break
+            prefix = prefix + ((c, (not stop_on) if pol else stop_on),)
+        return out
+    return [((), e)]
+
+
+def decided(ps, atoms, formula):
+    """the value of formula(assignment) if it is the same for every assignment
+    of the atoms that the path's facts admit, else None"""
+    import itertools
+    vals = set()
+    for bits in itertools.product((True, False), repeat=len(atoms)):
+        assign = dict(zip(atoms, bits))
+        if consistent(ps, assign):
+            vals.add(formula(assign))
+    return vals.pop() if len(vals) == 1 else None
+
+
+def decision_rows(func, atoms, normal_only=True):
+    """rows (assignment dict, path, value text) for every normal path of func,
+    every split of its returned value, and every assignment of the atoms
+    (canonical condition texts) that the path's facts admit"""
+    import itertools
+    rows = []
+    for ps in normal(summaries(func)):
+        if ps.kind == 'raise':
+            continue
+        cases = value_cases(ps.ret, ps.facts) if ps.ret is not None else [((), None)]
+        for conds, val in cases:
+            for bits in itertools.product((True, False), repeat=len(atoms)):
+                assign = dict(zip(atoms, bits))
+                if any(assign.get(c, t) != t for c, t in conds):
+                    continue
+                if not consistent(ps, assign):
+                    continue
+                rows.append((assign, ps, nt(val)))
+    return rows
 
 
 def ifexp_table(e):
@@ -761,15 +913,14 @@ def names_spec(rep, rule, func, site):
 def query_multi_spec(rep, rule, func, site):
     ss = normal(summaries(func))
     problems = []
-    lk = 'self.lookup([providedBy(o) for o in objects], provided, name)'
+    lk = ntext('self.lookup([providedBy(o) for o in objects], provided, name)')
     called = 0
     for ps in ss:
         if ps.kind == 'raise':
             continue
         lks = [e for e in ps.events if e.kind == 'call' and nt(e.r.func) == 'self.lookup']
         if len(lks) != 1 or nt(lks[0].r) not in (
-                lk, 'self.lookup(tuple([providedBy(o) for o in objects]), provided, name)',
-                'self.lookup(list(map(providedBy, objects)), provided, name)'):
+                lk, ntext('self.lookup(tuple([providedBy(o) for o in objects]), provided, name)')):
             problems.append('looks up `%s`' % [nt(e.r)[:80] for e in lks])
             continue
         factory = nt(lks[0].r)
@@ -815,7 +966,7 @@ def query_multi_spec(rep, rule, func, site):
 def subscribers_spec(rep, rule, func, site):
     ss = normal(summaries(func))
     problems = []
-    sub = 'self.subscriptions([providedBy(o) for o in objects], provided)'
+    sub = ntext('self.subscriptions([providedBy(o) for o in objects], provided)')
     called_h = called_a = 0
     for ps in ss:
         if ps.kind == 'raise':
